@@ -34,10 +34,31 @@ def extracted_scan(repo):
                          SCAN_CONS, _scan_specs(path, "put") + _scan_specs(path, "get"))
 
 
+# ---- FilterStore._do_get: for i, item in enumerate(self.items): if event.filter(item): del self.items[i]; succeed(item); break
+FILTER_CONS = [("FxDelAt", "(i : Z)"),        # del self.items[i]
+               ("FxSucceedItem", ""),         # event.succeed(item)
+               ("FxReturnTrue", ""),          # return True
+               ("FxLoopAgain", "")]
+
+
+def extracted_filterget(repo):
+    from vlib import translate as tr
+    path = os.path.join(repo, "onl", "sim", "resources", "store.py")
+    spec = tr.FnSpec(path, "FilterStore", "_do_get", "gen_FilterStore_do_get_iter", select="loop", local_state=True,
+                     reads=[("self.items", "n_items", "len"), ("event.filter(item)", "matches", "bool")],
+                     effects=[("del self.items[_1]", "FxDelAt", ["Z"]), ("event.succeed(item)", "FxSucceedItem", []),
+                              ("return True", "FxReturnTrue", [])],
+                     loop_again="FxLoopAgain")
+    return tr.gen_module("onl/sim/resources/store.py: FilterStore._do_get -- ONE iteration of `for i, item in enumerate(self.items)` "
+                         "(state record = i, which enumerate starts at 0) and the return after the loop", "fget_st", "f_", [("i", "Z")],
+                         "fget_fx", FILTER_CONS, [spec])
+
+
 def write_extracted(repo, coq_dir):
     from vlib import translate as tr
     tr.write_if_changed(os.path.join(coq_dir, "Gen", "Extracted_scan.v"), extracted_scan(repo))
     tr.write_if_changed(os.path.join(coq_dir, "Gen", "Extracted_baseres.v"), extracted_baseres(repo))
+    tr.write_if_changed(os.path.join(coq_dir, "Gen", "Extracted_filterget.v"), extracted_filterget(repo))
 
 
 # ---- the straight-line bodies around the loops -------------------------------------------------------------------------
